@@ -37,6 +37,8 @@ TIES = {
     "strip_quotes": ("_strip_quotes", ["'", '"', "\\", "$", "a", " ", "`", "\n", "!", "$'", '$"'], (5, 6), (3000, 60000), _ident, str),
     "is_assignment": ("_is_assignment_word", ["a", "_", "1", "[", "]", "+", "=", "-", "/", ".", "A", "é", " "], (5, 6), (3000, 60000), _bool, bool),
     "strip_fd_prefix": ("_strip_fd_prefix", [">", ">>", "<", "&", "|", "1", "2", "10", "{", "}", "v", "_", "-", "a"], (4, 5), (2000, 40000), _ident, str),
+    "sets_execution_var": ("allowlists:sets_execution_var", ["PATH", "LD_PRELOAD", "IFS", "PATHX", "XPATH", "a", "_", "1", "=", "+", ":", "/bin", "/usr/bin", "/tmp", ".", "[", " ", "$PATH"],
+                           (4, 5), (4000, 80000), _bool, lambda r: r is not None),
     "plain_raw": ("_is_plain_raw", ["$(", ")", "(", "`", "#", " ", "\n", "'", '"', "\\", "a", ";", "${", "}"], (4, 5), (3000, 60000), _bool, bool),
 }
 
@@ -55,7 +57,12 @@ def run_ties(out, model, names, tier, rng, an=None):
     diffs = {}
     for name in names:
         attr, tokens, lens, nrand, dec, conv = TIES[name]
-        f = getattr(an, attr, None)
+        if ":" in attr:      # a helper of another module of dippy.core
+            import importlib
+            modname, attr = attr.split(":")
+            f = getattr(importlib.import_module("dippy.core." + modname), attr, None)
+        else:
+            f = getattr(an, attr, None)
         if f is None:
             out.disagreements.append({"correspondence": f"Walker.{name} <-> analyzer.{attr}", "detail": "the implementation has no such function any more"})
             continue
